@@ -521,8 +521,12 @@ func genHostileDoc(t *rapid.T, format string) ([]byte, readOpts) {
 			doc := string(docGen(format).Draw(t, "doc"))
 			for _, a := range []string{` begin="`, ` end="`, ` style="`, ` region="`, `xml:id="`, ` id="`} {
 				if rapid.IntRange(0, 3).Draw(t, "drop"+a) == 0 {
-					doc = strings.Replace(doc, a, rapid.SampledFrom([]string{` x="`, a + `"`, a + `&`, ` `}).Draw(t, "repl"+a), rapid.IntRange(1, 2).Draw(t, "cnt"+a))
+					// renamed to an attribute the reader ignores, to one TTML defines but the reader does not know yet, emptied, broken
+					doc = strings.Replace(doc, a, rapid.SampledFrom([]string{` x="`, ` dur="`, ` timeContainer="`, ` ttm:role="`, a + `"`, a + `&`, ` `}).Draw(t, "repl"+a), rapid.IntRange(1, 2).Draw(t, "cnt"+a))
 				}
+			}
+			if rapid.IntRange(0, 3).Draw(t, "adddur") == 0 {
+				doc = strings.Replace(doc, `<p `, rapid.SampledFrom([]string{`<p dur="2s" `, `<p dur="" `, `<p dur="x" `, `<p timeContainer="seq" `}).Draw(t, "durattr"), 1)
 			}
 			return []byte(doc), o
 		default:
